@@ -25,7 +25,6 @@ import tlc
 PID = "C08"
 SCR = os.path.join(framework.ROOT, ".scratch")
 TIMING_DAT = os.path.join(os.environ.get("VERIF_REPO", "/repo"), "tests", "data", "timing.dat")
-PROBE_FINDINGS = True      # negative RPHASE / NCOEFF = 1 / non-UTC time scales (keyed separately)
 
 # (MJD of the first day with the new TAI-UTC, TAI-UTC): the day before is a leap-second day
 LEAPS = [41317, 41499, 41683, 42048, 42413, 42778, 43144, 43509, 43874, 44239, 44786, 45151, 45516,
@@ -329,10 +328,10 @@ class PolyGen:
                 return tm, dec
         raise HarnessError("no layout found")
 
-    def make(self, family, wide=False, n=None, ncoeff=None, probe=None, force=None):
+    def make(self, family, wide=False, n=None, ncoeff=None, force=None):
         rnd = self.rnd
         n = n or rnd.choice([1, 1, 2, 2, 3, 3, 4, 5, 6])
-        ncoeff = ncoeff or rnd.choice([2, 2, 3, 4, 5, 6, 7, 8, 9, 10, 11, 12, 12, 13, 14, 15, 15])
+        ncoeff = ncoeff or rnd.choice([1, 2, 2, 3, 4, 5, 6, 7, 8, 9, 10, 11, 12, 12, 13, 14, 15, 15])
         for _ in range(1000):
             span = rnd.choice([10, 15, 30, 60, 90, 120, 240, 360, 720, 1440, rnd.randint(10, 1440)])
             f0 = math.exp(rnd.uniform(math.log(0.1), math.log(700.0)))
@@ -358,19 +357,31 @@ class PolyGen:
             K = min(ncoeff - 1, rnd.randint(1, 5))
             R = max(F(1), (tmids[-1] - tmids[0]) * 1440 + H)
             Ftrue = F0 + F(rnd.randint(-10 ** 6, 10 ** 6), 10 ** 6) * F0 / 10 ** 5     # F0 text is a rounded reference
+            if ncoeff == 1:
+                Ftrue = F0          # no COEFF(2) to carry the difference
             g = [F(0), 60 * Ftrue]
             for k in range(2, K + 1):
                 amp = 60 * Ftrue * R * F(rnd.randint(1, 1000), 10 ** 7)             # <= 1e-4 of the linear phase
                 g.append(rnd.choice([-1, 1]) * amp / R ** k)
             phi0 = F(rnd.randrange(10 ** rnd.randint(0, 12)) * 10 ** 6 + rnd.randrange(10 ** 6), 10 ** 6)
-            # keep every RPHASE non-negative
-            g[0] = phi0 + 60 * Ftrue * H * 2
+            # reference phases of either sign: all positive, all negative (TMID before the phase-zero
+            # epoch), or changing sign within the file
+            sign_kind = rnd.choice(["pos", "pos", "neg", "neg", "cross"])
+            if sign_kind == "pos":
+                g[0] = phi0 + 60 * Ftrue * H * 2
+            elif sign_kind == "neg":
+                g[0] = -(phi0 + 60 * Ftrue * (R + 2 * H))
+            else:
+                g[0] = -60 * Ftrue * R * F(rnd.randint(1, 99), 100) + F(rnd.randrange(10 ** 6), 10 ** 6)
             for tm in tmids:
                 tau = (tm - tmids[0]) * 1440
                 c = []
                 for j in range(ncoeff):
                     c.append(sum(F(math.comb(k, j)) * g[k] * tau ** (k - j) for k in range(j, len(g))) if j < len(g) else F(0))
+                # RPHASE with six decimals, cut downwards or towards zero; COEFF(1) takes the rest
                 rph = F(math.floor(c[0] * 10 ** 6), 10 ** 6)
+                if c[0] < 0 and rnd.random() < 0.5:
+                    rph = -F(math.floor(-c[0] * 10 ** 6), 10 ** 6)
                 c[0] -= rph
                 if ncoeff >= 2:
                     c[1] -= 60 * F0
@@ -379,8 +390,8 @@ class PolyGen:
             for tm in tmids:
                 rdec = 6 if rnd.random() < 0.7 else rnd.choice([0, 1, 3, 9])
                 rph = F(rnd.randrange(10 ** rnd.randint(0, 12)) * 10 ** rdec + rnd.randrange(10 ** rdec), 10 ** rdec)
-                if probe == "negative-rphase":
-                    rph = -rph - F(1, 4)
+                if rnd.random() < 0.35:
+                    rph = -rph
                 c = []
                 for j in range(ncoeff):
                     top = 0 if j == 0 else 3
@@ -434,7 +445,7 @@ class PolyGen:
         text = eol.join(lines) + (eol if final_nl else "")
         # description used only to aim times and phases (entries sorted by TMID, as the table is)
         desc = {"family": family, "wide": wide, "span": span, "ncoeff": ncoeff, "n": n, "kind": kind,
-                "tmids": tmids, "f0": float(F0), "order": how, "probe": probe,
+                "tmids": tmids, "f0": float(F0), "order": how,
                 "monotone": family == "A", "entries": entries}
         return text, desc
 
@@ -447,7 +458,7 @@ def read_real_file():
     for i in range(0, len(ls) - 1, 6):
         tm.append(F(ls[i].split()[3]))
     desc = {"family": "real", "wide": False, "span": 90, "ncoeff": 12, "n": len(tm), "kind": "touch",
-            "tmids": tm, "f0": 641.928232294317, "order": "sorted", "probe": None, "monotone": True, "entries": None}
+            "tmids": tm, "f0": 641.928232294317, "order": "sorted", "monotone": True, "entries": None}
     return text, desc
 
 
@@ -545,15 +556,13 @@ def times_arg(ts):
 def gen_session(rnd, text, desc, nevents, via):
     """-> list of args (load first)."""
     acts = [{"op": "load", "text": text, "via": via}]
-    if desc.get("probe") in ("negative-rphase", "ncoeff-1"):
-        return acts
     n = desc["n"]
     rows = list(range(n))
     aim = Aim(rnd, desc, rows)
     acts.append({"op": "intervals", "fresh": True})
     XD = [0.0, 2.0 ** -14, -2.0 ** -14, 1.0 / 16, -1.0 / 16, 0.5, -0.5, 2.0, -2.0, 0.25, 1.0 / 1024, -4.0]
     scales = ["utc"]
-    if PROBE_FINDINGS and desc.get("scale_probe"):
+    if desc.get("other_scale"):            # times handed over in TAI / TT instead of the table's UTC
         scales = ["tai", "tt"]
     while len(acts) < nevents:
         r = rnd.random()
@@ -662,8 +671,6 @@ def gen_time_at(rnd, desc, aim):
         lo, hi = model_phase(desc, a), model_phase(desc, b)
         d = F(rnd.randint(1, 10 ** 6), 100)
         ph = lo - d if rnd.random() < 0.5 else hi + d
-        if ph < 0:
-            ph = hi + d
     i = math.floor(ph + F(1, 2))
     return {"op": "time_at", "phi": {"i": int(i), "f": hx(float(ph - i))}, "guess": guess}
 
@@ -719,7 +726,6 @@ def classify(names):
 
 def key_of(ev, bad):
     """stable name of the failing input class:
-         from_polyco:<probe>                     texts of a probed class (negative RPHASE, NCOEFF = 1)
          scale-not-utc:<call>:<clause>[Exc]      times given in another scale than the table's (UTC)
          <call>:<clause>[Exc]                    everything else"""
     a = ev.get("args", {})
@@ -728,8 +734,6 @@ def key_of(ev, bad):
     k = "%s:%s" % (ev["ev"], "+".join(bad))
     if raised:
         k += "[%s]" % raised
-    if ev["ev"] == "load" and meta.get("probe"):
-        return "from_polyco:%s:%s" % (meta["probe"], k)
     sc = (a.get("times") or {}).get("scale", "utc")
     if sc != "utc":
         return "scale-not-utc:" + k
@@ -751,15 +755,10 @@ def build_sessions(chk):
         fam = "A" if i % 3 == 0 else "B"
         wide = (i % 8 == 7)
         text, desc = gen.make(fam, wide=wide)
-        if PROBE_FINDINGS and i % 10 == 4:
-            desc["scale_probe"] = True
+        if i % 10 == 4:
+            desc["other_scale"] = True
         via = "file" if i % 4 == 1 else "stringio"
         sessions.append((text, desc, gen_session(rnd, text, desc, per, via)))
-    if PROBE_FINDINGS:
-        for probe, kw in (("negative-rphase", {}), ("ncoeff-1", {"ncoeff": 1})):
-            for _ in range(2):
-                text, desc = gen.make("B", probe=probe, **kw)
-                sessions.append((text, desc, gen_session(rnd, text, desc, 1, "stringio")))
     return sessions
 
 
@@ -787,7 +786,7 @@ def decimal_selftest(rnd, n):
             if s and all(c in "0123456789" for c in s):
                 bad = False
         ev = {"ev": "decimal", "s": list(s.encode()), "bad": bad, "val": exact.rat(0), "args": {"op": "decimal", "s": s},
-              "meta": {"family": "selftest", "wide": False, "probe": None, "span": 0, "ncoeff": 0, "f0": 0.0, "n": 0}}
+              "meta": {"family": "selftest", "wide": False, "span": 0, "ncoeff": 0, "f0": 0.0, "n": 0}}
         if not bad:
             digits = (ip + fp) or "0"
             ev["val"] = exact.rat(F(-1 if sign == "-" else 1) * F(int(digits)) * F(10) ** (xv - len(fp)) if not bad else 0)
@@ -807,7 +806,7 @@ def execute(sessions):
         evs = []
         for a in acts:
             ev = s.perform(a)
-            ev["meta"] = {"family": desc["family"], "wide": desc["wide"], "probe": desc.get("probe"),
+            ev["meta"] = {"family": desc["family"], "wide": desc["wide"],
                           "span": desc["span"], "ncoeff": desc["ncoeff"], "f0": desc["f0"], "n": desc["n"]}
             evs.append(ev)
             if a["op"] == "load" and ev["raised"]:
@@ -946,6 +945,12 @@ def run(chk):
     chk.notes["ambiguous"] = amb_counts
     chk.notes["ambiguous_examples"] = amb_examples
     chk.notes["polyco_texts"] = len(sessions)
+    ents = [e for _, d, _ in sessions if d.get("entries") for e in d["entries"]]
+    chk.notes["population"] = {"entries": len(ents),
+                               "negative_rphase_entries": sum(1 for e in ents if e["rphase"] < 0),
+                               "negative_rphase_with_fraction": sum(1 for e in ents if e["rphase"] < 0 and e["rphase"] % 1 != 0),
+                               "ncoeff_1_texts": sum(1 for _, d, _ in sessions if d["ncoeff"] == 1),
+                               "texts_with_tai_or_tt_times": sum(1 for _, d, _ in sessions if d.get("other_scale"))}
     chk.notes["tolerances"] = {"phase": "1e-8 cycle (events beyond the float64 budget of the code's poly(dt) are 'ambiguous:double-limit')",
                                "f0": "1e-9 relative + 1e-12 * SUM|terms|", "time_at": "1e-8 cycle + f * 2^-49 day",
                                "intervals": "2^-49 day", "tmid": "2^-51 day", "span boundary": "10.8 us undecided"}
